@@ -97,6 +97,16 @@ def _read(pk, g, n):
     return [[bool(g.is_value_known(C(S))), g.get_lower_bound(C(S)), g.get_upper_bound(C(S))] for S in range(2 ** n)]
 
 
+def _read_bulk(pk, g, n):
+    """The same table through the vectorised accessors: known flags, lower / upper bounds, and 'known values' (None where unknown)."""
+    kn = [bool(b) for b in g.are_values_known()]
+    lo, up = list(g.get_lower_bounds()), list(g.get_upper_bounds())
+    kv = list(g.get_known_values())
+    return {"rows": [[kn[S], lo[S], up[S]] for S in range(2 ** n)],
+            "known_values_hide_unknown": all((kn[S]) or kv[S] is None or (isinstance(kv[S], float) and kv[S] != kv[S]) for S in range(2 ** n)),
+            "known_values": [kv[S] if kn[S] else None for S in range(2 ** n)]}
+
+
 def _arr(pk, vals):
     import numpy as np
     a = np.empty(len(vals), dtype=object if pk.symbolic else float)
@@ -197,14 +207,19 @@ def scenario(pk, params, inp):
             else:
                 fn(np.full(len(arg), val), [C(S) for S in arg])
         elif op == "copy":
+            # every bulk reader is used once BEFORE the copy (whatever a reader memoises is then warm) ...
+            _warm = (g.are_values_known(), g.get_known_values(), g.get_lower_bounds(), g.get_upper_bounds())
             c = g.copy()
             res["copy_equal"] = _read(pk, c, n)
             c.set_value(x[0], C(2 ** n - 1))
             c.set_lower_bound(x[1 % 2 ** n], C(0))
             res["orig_after_copy_mutation"] = _read(pk, g, n)
+            res["orig_bulk_after_copy_mutation"] = _read_bulk(pk, g, n)
             g.set_value(inp.real("h0"), C(0))
             g.unset_value(C(2 ** n - 1))
             res["copy_after_orig_mutation"] = _read(pk, c, n)
+            # ... and AFTER the mutations both objects are read through the bulk accessors as well
+            res["copy_bulk_after_orig_mutation"] = _read_bulk(pk, c, n)
         elif op == "neg":
             m = -g
             res["neg"] = _read(pk, m, n)
@@ -392,6 +407,14 @@ def claims(params, inp, out, lg):
             else:
                 cm[0] = [True, x[1 % N], x[0]]
             cl += _rows_eq(lg, res["copy_after_orig_mutation"], [cm[S] for S in range(N)], f"{tag}:copy-independent")
+            for which, bulk, rows in (("orig", res["orig_bulk_after_copy_mutation"], [st[S] for S in range(N)]),
+                                      ("copy", res["copy_bulk_after_orig_mutation"], [cm[S] for S in range(N)])):
+                cl += _rows_eq(lg, bulk["rows"], rows, f"{tag}:{which}-bulk-accessors-agree")
+                cl.append((f"{tag}:{which}-known-values-hide-unknown", bulk["known_values_hide_unknown"] is True))
+                # (a scalar bound setter may have split lower / upper of a known row: "the value" is then not defined by the property)
+                cl.append((f"{tag}:{which}-known-values", lg.And([lg.eq(kv, rows[S][1]) for S, kv in enumerate(bulk["known_values"])
+                                                                 if rows[S][0] and rows[S][1] is rows[S][2]]
+                                                                + [all(kv is None for S, kv in enumerate(bulk["known_values"]) if not rows[S][0])])))
             continue
         elif op == "neg":
             neg = [[st[S][0], -st[S][2], -st[S][1]] for S in range(N)]
